@@ -12,6 +12,8 @@ import Csvq.Lemmas.Escape
 import Csvq.Lemmas.Scanner
 import Csvq.Lemmas.UnaryPrint
 import Csvq.Lemmas.OpExpr
+import Csvq.Lemmas.AstPrint
+import Csvq.Ref.AstPrint
 namespace Csvq.C18
 open Csvq.Esc Csvq.Scan Csvq.UPrint
 
@@ -297,6 +299,76 @@ open Csvq.OpExpr Csvq.Gen.Precedence in
 theorem gen_print_parse_needs_wellformed :
     parse genTable (print genTable (.bin (.bin (.atom 0) .c_plus 0 (.atom 1)) .c_star 0 (.atom 2))) =
       some (.bin (.atom 0) .c_plus 0 (.bin (.atom 1) .c_star 0 (.atom 2))) := by decide
+
+/-! ## GRAMMAR LAYER, the printers themselves: facts REGENERATED from lib/parser/ast.go and parser.y on every run
+   (extract/astprint -> Csvq/Gen/AstPrint.lean): for each of the 68 node types with a String() method its fields, the
+   fields the method reads, and the ordered parts of the method body with their conditions; for each production of
+   parser.y that builds such a node, the fields it sets. -/
+
+open Csvq.AstPrint Csvq.Gen.AstPrint in
+/-- every field of every printable node is read by its printer, except the reviewed exemptions
+    (`Csvq.AstPrint.exemptFields`: the embedded position record BaseExpr).  A printer that stops printing a field, or
+    a node that gains a field its printer ignores, breaks this. -/
+theorem gen_printers_read_every_field : nodes.all readsEveryField = true := by decide +kernel
+
+/-- the print sequence of every printable node (conditions, order, values, fields read) is the reviewed one
+    (Csvq/Ref/AstPrint.lean): SelectQuery, SelectEntity, SelectClause, OrderItem, LimitClause, OffsetClause,
+    AnalyticFunction (DISTINCT / IGNORE NULLS), AnalyticClause, WindowingClause, WindowFramePosition, Table, Join,
+    JoinCondition, Field, CaseExpr, Function, AggregateFunction, ListFunction, PrimitiveType, FieldReference,
+    Parentheses, … — all 68. -/
+theorem gen_print_sequences_eq_ref : Csvq.Gen.AstPrint.nodes = Csvq.Ref.AstPrint.nodes := rfl
+
+open Csvq.AstPrint Csvq.Gen.AstPrint in
+/-- a field that some production of parser.y sets to a non-zero value is printed by String() under a condition that
+    holds for that value: unconditionally, under a test of that field alone, in both branches of a test, or under one
+    of the reviewed cross-field conditions (`Csvq.AstPrint.crossGuards`, each justified there). -/
+theorem gen_every_field_settable_is_printed : settable.all settableOK = true := by decide +kernel
+
+open Csvq.AstPrint Csvq.Gen.AstPrint in
+/-- non-vacuity of the above: the grammar sets 156 (node, field) pairs, among them the ones the seeds removed -/
+theorem gen_settable_nonvacuous :
+    settable.length = 156 ∧ ("OrderItem", "NullsPosition") ∈ settable ∧ ("OrderItem", "Direction") ∈ settable ∧
+    ("Table", "Alias") ∈ settable ∧ ("LimitClause", "Restriction") ∈ settable ∧ ("AnalyticFunction", "IgnoreType") ∈ settable ∧
+    ("SelectQuery", "Context") ∈ settable := by decide +kernel
+
+open Csvq.AstPrint Csvq.Gen.AstPrint Csvq.OpExpr in
+/-- the operator printers of ast.go emit exactly what `OpExpr.print` / `UPrint.print` model:
+    binary nodes LHS, operator, RHS joined by spaces; IS / LIKE with the negation where the grammar has it; Parentheses
+    the operand in parentheses; Concat the items joined by ` || `; the unary printers operator then operand, with the
+    separating space exactly in the cases of `UPrint.UExpr.print` — and on the model side the corresponding equations. -/
+theorem gen_operator_printers_match_model :
+    (∀ k ∈ ["Arithmetic", "Comparison", "Logic"], (nodes.find? (·.name = k)).map (·.parts) = some [
+      ⟨"", "s+", "e.LHS.String()", ["LHS"], []⟩, ⟨"", "s+", "e.Operator.String()", ["Operator"], []⟩,
+      ⟨"", "s+", "e.RHS.String()", ["RHS"], []⟩, ⟨"", "return", "joinWithSpace(s)", [], []⟩]) ∧
+    node_Is.parts = [⟨"", "s+", "e.LHS.String()", ["LHS"], []⟩, ⟨"", "s+", "keyword(IS)", [], []⟩,
+      ⟨"e.IsNegated()", "s+", "e.Negation.String()", ["Negation"], ["Negation"]⟩,
+      ⟨"", "s+", "e.RHS.String()", ["RHS"], []⟩, ⟨"", "return", "joinWithSpace(s)", [], []⟩] ∧
+    node_Like.parts = [⟨"", "s+", "e.LHS.String()", ["LHS"], []⟩,
+      ⟨"e.IsNegated()", "s+", "e.Negation.String()", ["Negation"], ["Negation"]⟩, ⟨"", "s+", "keyword(LIKE)", [], []⟩,
+      ⟨"", "s+", "e.Pattern.String()", ["Pattern"], []⟩, ⟨"", "return", "joinWithSpace(s)", [], []⟩] ∧
+    node_Parentheses.parts = [⟨"", "return", "putParentheses(e.Expr.String())", ["Expr"], []⟩] ∧
+    node_Concat.parts = [⟨"", "s", "make([]string, len(e.Items))", ["Items"], []⟩,
+      ⟨"range e.Items", "s[i]", "v.String()", [], ["Items"]⟩, ⟨"", "return", "strings.Join(s, \" || \")", [], []⟩] ∧
+    node_UnaryArithmetic.parts = [⟨"", "operand", "e.Operand.String()", ["Operand"], []⟩,
+      ⟨"e.Operator.Token == '-' && strings.HasPrefix(operand, \"-\")", "return", "e.Operator.String() + \" \" + operand", ["Operator"], ["Operator"]⟩,
+      ⟨"", "return", "e.Operator.String() + operand", ["Operator"], []⟩] ∧
+    node_UnaryLogic.parts.drop 3 = [⟨"", "operand", "e.Operand.String()", ["Operand"], []⟩,
+      ⟨"strings.HasPrefix(operand, \"!\") || strings.HasPrefix(operand, \":\")", "return", "e.Operator.String() + \" \" + operand", ["Operator"], []⟩,
+      ⟨"", "return", "e.Operator.String() + operand", ["Operator"], []⟩] ∧
+    -- the model's printers, equation by equation
+    (∀ (tbl : Table Csvq.Gen.Precedence.Term) l t v r, print tbl (.bin l t v r) = print tbl l ++ .sym t v :: print tbl r) ∧
+    (∀ (tbl : Table Csvq.Gen.Precedence.Term) e, print tbl (.paren e) = .lpar :: (print tbl e ++ [.rpar])) ∧
+    (∀ (tbl : Table Csvq.Gen.Precedence.Term) e t neg w, print tbl (.post e t neg w) =
+      print tbl e ++ .sym t 0 :: ((if neg then [.sym tbl.neg 0] else []) ++ [.lit w])) ∧
+    (∀ e : UExpr, (UExpr.neg e).print = if startsWith '-' e.print then '-' :: ' ' :: e.print else '-' :: e.print) ∧
+    (∀ e : UExpr, (UExpr.bang e).print =
+      if startsWith '!' e.print || startsWith ':' e.print then '!' :: ' ' :: e.print else '!' :: e.print) := by
+  refine ⟨by decide, by decide, by decide, by decide, by decide, by decide, by decide, ?_, ?_, ?_, ?_, ?_⟩
+  · intros; rfl
+  · intros; rfl
+  · intros; rfl
+  · intro e; rfl
+  · intro e; rfl
 
 /-! ## non-vacuity -/
 
